@@ -693,7 +693,8 @@ def main(ck):
              'other int array, size fields with/without adjusted file length, header ints, truncations at all section '
              'boundaries, random int-array elements, bytes, splices); non-trivial = the corruption hits a header/size/'
              'index field or truncates (not float payload); distinct by (model, ops)')
-  ck.assumptions = ['mjModel.signature is not compared after a binary round trip (mjmodel.h: compilation signature held by '
+  ck.assumptions = ['generated documents do not use <compiler fusestatic> (compiling a fused static body with a framed camera is a heap-use-after-free in this tree, which would end the ASan process; reported under C33/C37)',
+                    'mjModel.signature is not compared after a binary round trip (mjmodel.h: compilation signature held by '
                     'the mjSpec; a loaded binary has no spec)',
                     'allocation requests above 256 MB caused by a corrupted size field are refused by a capped '
                     'mju_user_malloc and counted as inconclusive (alloc-cap), not as rejections',
@@ -719,7 +720,7 @@ def main(ck):
             labels=['roundtrip:generated'] + [l for l in gm.labels() if l.split(':')[0] in (
                 'mesh', 'hfield', 'texture', 'material', 'default-class', 'frame', 'replicate', 'keyframe', 'tuple',
                 'geom-adhesion', 'pair-adhesion', 'gravcomp', 'surfacevel', 'numeric', 'text', 'pair', 'exclude')])
-  ck.run_hypothesis(rt_test, st.tuples(gen_io.rich_models(max_bodies=4, memory='2M'), mg.state_seed()), ck.budget(16, 1200),
+  ck.run_hypothesis(rt_test, st.tuples(gen_io.rich_models(max_bodies=4, memory='2M', fusestatic=False), mg.state_seed()), ck.budget(16, 250),
                     name='roundtrip', shrink=False)
   _tick('roundtrip-generated')
   files = [f for f in corpus.xml_files(lib.repo) if os.path.getsize(f) < (4000 if quick else 10 ** 9)]
@@ -786,7 +787,7 @@ def main(ck):
     c.run_cases(r, c.header_cases(r))
   _tick('sizes-header')
   for r in targets[:ck.budget(1, 8)]:
-    every = (not quick) and r['nbytes'] < 60000
+    every = (not quick) and r['nbytes'] < 15000
     c.run_truncations(r, c.truncation_lengths(r, rng, ck.budget(40, 3000), every=every))
 
   _tick('truncation')
@@ -802,7 +803,7 @@ def main(ck):
   infos = [lay_info(lib, r) for r in pool]
   strat = st.integers(0, len(pool) - 1).flatmap(
       lambda i: st.tuples(st.just(i), random_corruptions(infos[i], 40)))
-  ck.run_hypothesis(rnd_test, strat, ck.budget(6, 1500), name='random-corruption', shrink=False)
+  ck.run_hypothesis(rnd_test, strat, ck.budget(6, 500), name='random-corruption', shrink=False)
 
   _tick('random')
   # ---------- (d) libFuzzer
@@ -828,7 +829,7 @@ def fuzz(ck, c, recs):
     with open(os.path.join(cdir, 'seed%03d.mjb' % n), 'wb') as f:
       f.write(r['data'])
     n += 1
-  secs = ck.budget(15, 600)
+  secs = ck.budget(15, 300)
   jobs = 1 if ck.quick else 4
   cmd = [exe, cdir, '-max_total_time=%d' % secs, '-artifact_prefix=' + adir + '/', '-max_len=400000', '-timeout=20',
          '-rss_limit_mb=3000', '-malloc_limit_mb=512', '-seed=%d' % ck.seed, '-print_final_stats=1', '-len_control=0']
